@@ -6,6 +6,8 @@ import ast
 import io
 import zlib
 
+import z3
+
 from vf.common import CEX, ObResult, Unit
 from vf.harness import extract as X
 from vf.harness import readcases as RC
@@ -437,6 +439,26 @@ def section_differential(section, nbytes, prefix=""):
     eng.count_budget = 8
     bs = [eng.sym_int("b%d" % i, 8) for i in range(nbytes)]
     stats = {"both": 0, "lenient": 0}
+    if section == "FilesInfo":
+        # summary of read_utf16 (its own round trip is C17.d): 2-byte units up to the terminator; at the end of the data the
+        # real loop idles through its 65536 iterations and returns what it has - the summary stops right there
+        from vf.pysym.models import utf16_decode
+        from vf.pysym.values import SBytes
+
+        def read_utf16_summary(e_, file):
+            acc = []
+            while True:
+                ch = e_.models.call_method(e_, file, "read", [2], {})
+                items = list(ch.items) if hasattr(ch, "items") else list(ch)
+                if len(items) < 2:
+                    acc.extend(items)
+                    break
+                if e_.branch(z3.And(e_.lift(items[0]) == 0, e_.lift(items[1]) == 0)):
+                    break
+                acc.extend(items)
+            return utf16_decode(e_, SBytes(acc))
+
+        eng.overrides[(AI_, "read_utf16")] = read_utf16_summary
 
     def ctx_folders(e, kind):
         """SubstreamsInfo needs the folders parsed before it: two folders, 5 and 7 bytes, the second with a CRC"""
@@ -472,6 +494,10 @@ def section_differential(section, nbytes, prefix=""):
             o["ref_exc"] = ex.name
         except BudgetExceeded:
             return dict(cut=True)
+        if section == "FilesInfo" and "ref" in o:
+            for rf in o["ref"]:
+                for u in rf.get("name_units", []):
+                    e.assume(z3.Or(e.lift(u) < 0xD800, e.lift(u) > 0xDFFF))   # valid UTF-16 without surrogates (astral names: C17)
         obj = e.new(e.cls(AI_, section))
         try:
             if section == "SubstreamsInfo":
@@ -598,7 +624,14 @@ def section_differential(section, nbytes, prefix=""):
                     else:
                         c.append(pf.get(pk) is None)
                 if "name_units" in rf:
-                    c.append(pf.get("filename") is not None)
+                    nm = pf.get("filename")
+                    c.append(nm is not None)
+                    if nm is not None:
+                        cps = [ord(ch_) for ch_ in nm] if isinstance(nm, str) else list(nm.cps)
+                        c.append(len(cps) == len(rf["name_units"]))
+                        for cp, u in zip(cps, rf["name_units"]):
+                            # (py7zr shows backslashes as slashes; surrogate units are assumed away below)
+                            c.append(z3.If(eng.lift(u) == 0x5C, eng.lift(cp) == 0x2F, eng.lift(cp) == eng.lift(u)))
         else:
             counts = R["counts"]
             c.append(len(P["num_unpackstreams_folders"]) == len(counts))
@@ -772,7 +805,9 @@ def units(tier):
                        dict(section="UnpackInfo", nbytes=n, prefix="0b01000111"), 3000))
     # FilesInfo: two files, one property id fixed, its size and content (and what follows) free
     for pre, ns in (("020e", (3, 4)), ("020e01c00f", (3, 4)), ("0214", (5, 6)), ("0215", (5,) if tier == "quick" else (5, 6)),
-                    ("0218", (5, 6)), ("0219", (3, 4)), ("02", (3,))) + (
+                    ("0218", (5, 6)), ("0219", (3, 4)), ("02", (3,)),
+                    # Names property of fixed size 7 / 9 (11): the two names and what follows are free
+                    ("02110700", (7,)), ("02110900", (9,))) + ((("02110b00", (11,)),) if tier == "thorough" else ()) + (
             # nine files: bit vectors that span two bytes
             (("090e", (4,)), ("090e02ff800f", (4,))) if tier == "thorough" else ()):
         for n in ns:
